@@ -183,7 +183,7 @@ def lean_prepare(pid: str, tier: str = "quick") -> LeanStatus:
         )
         out = p.stdout + p.stderr
         for m in re.finditer(
-            r"'([^']+)' (?:depends on axioms: \[([^\]]*)\]|does not depend on any axioms)", out
+            r"'([^\s]+)' (?:depends on axioms: \[([^\]]*)\]|does not depend on any axioms)", out
         ):
             ax = [a.strip() for a in (m.group(2) or "").replace("\n", " ").split(",") if a.strip()]
             st.axioms[m.group(1)] = ax
